@@ -70,8 +70,68 @@ def stream(ctx, n, order, tts, aged):
     ctx.sample(dict(stream=M.s.label, first_lines=M.s.lines[:8]))
 
 
+def reordering_stream(ctx, n, ncases):
+    """quantification while dynamic reordering fires (natural trigger with a
+    lowered threshold): the result must be the same function"""
+    rng = ctx.rng
+    for _ in range(ncases):
+        order = list(range(n))
+        rng.shuffle(order)
+        M = Mgr(ctx, f'quantify under reordering n={n} order={order}', n, order)
+        t = rng.getrandbits(1 << n)
+        tv = rng.getrandbits(1 << n)
+        if n == 6 and rng.random() < 0.7:
+            # order-sensitive function: pairs (p, p+3) with all first members above all
+            # second members; sifting moves the quantified variables to other levels
+            pairs = list(range(6))
+            rng.shuffle(pairs)
+            t = 0
+            for k in range(3):
+                t |= T.var(pairs[k], n) & T.var(pairs[k + 3], n)
+            tv = T.full(n)
+            for k in range(3):
+                tv &= T.var(pairs[k + 3], n)
+            M.s.lines  # (same manager; the order is replaced by swaps below)
+            M.op('reorder', {v: l for l, v in enumerate(pairs)})
+        u = M.build(t)
+        v = M.build(tv)
+        if u is None or v is None:
+            continue
+        M.op('incref', u)
+        M.op('incref', v)
+        M.op('gc', None)
+        for k in (1, 2, 3, 5, 8, 12):
+            M.op('configure', True)
+            M.op('set_last_len', k)
+            fa = rng.random() < 0.5
+            if rng.random() < 0.5:
+                qs = rng.sample(range(n), rng.randint(1, n))
+                r = M.op('quantify', u, 'n', qs, fa)
+                what = f'quantify({qs}, forall={fa})'
+            else:
+                qs = sorted(T.support(tv, n))
+                r = M.op('apply', rng.choice(['\\A', 'forall'] if fa else ['\\E', 'exists']), v, u, None)
+                what = f'apply quantifier over support {qs}'
+            expect = T.forall(t, n, qs) if fa else T.exists(t, n, qs)
+            ctx.case(('reordering', n, tuple(order), t, tv, k, what), True)
+            ctx.count('quantify-under-reordering')
+            if r is None or abs(r) not in M.b._succ or M.tt(r) != expect:
+                got = None if (r is None or abs(r) not in M.b._succ) else hex(M.tt(r))
+                ctx.violation('C03:wrong-under-reordering',
+                              f'{what} with reordering enabled (threshold {k}) gave {got}, expected {expect:#x}',
+                              M.case())
+            if M.tt(u) != t:
+                ctx.violation('C03:operand-changed', 'operand changed', M.case())
+            M.op('configure', False)
+        M.op('decref', u)
+        M.op('decref', v)
+
+
 def run(ctx):
     q = ctx.quick
+    reordering_stream(ctx, 4, 6 if q else 60)
+    reordering_stream(ctx, 5, 3 if q else 30)
+    reordering_stream(ctx, 6, 30 if q else 150)
     rng = ctx.rng
     for order in gen.orders(3):
         for aged in (False, True):
